@@ -50,3 +50,27 @@ Proof.
   split; [vm_compute; reflexivity|]. split; [vm_compute; discriminate|].
   intros ps H p Hp. cbn in H. repeat (destruct H as [<-|H]; [cbn in Hp; repeat (destruct Hp as [<-|Hp]; [eexists; split; [reflexivity|cbn; lia]|]); contradiction|]). contradiction.
 Qed.
+
+(* ---------- the peeled values cached in packed-refs (Model/PeeledCache.v) ---------- *)
+From DV Require Import PeeledCache PeeledCacheP.
+
+(* after ANY sequence of loose writes, deletions, add_packed_refs, pack_refs and git pack-refs (git writing true
+   peeled values) in which dulwich itself only ever puts plain values into packed-refs -- values that are not
+   tags, under names that carry no peeled line: branches, lightweight tags -- whatever
+   DiskRefsContainer.get_peeled answers is the peeled value of what the ref currently is: the cache never
+   changes an answer, it only saves peeling *)
+Theorem peeled_cache_never_lies_partial : forall peel ops r p,
+  run_plain peel (empty_state) ops -> get_peeled (run peel empty_state ops) r = Some p ->
+  exists v, current (run peel empty_state ops) r = Some v /\ p = peel v.
+Proof. exact peeled_cache_sound_lemma. Qed.
+Print Assumptions peeled_cache_never_lies_partial.
+
+(* the full statement (any sequence) is false of the code: _write_packed_refs writes the "peeled" header and
+   the table of peeled values it read earlier, and peels nothing.  A tag moved to another annotated tag and
+   packed again keeps the peeled value of the old one; an annotated tag packed for the first time is declared
+   "not a tag" (recorded finding: an existing test requires this writer) *)
+Theorem peeled_cache_never_lies_refuted :
+  (current (run ex_peel empty_state ex_moved) 0%nat = Some 12%Z /\ get_peeled (run ex_peel empty_state ex_moved) 0%nat = Some 1%Z /\ ex_peel 12 = 2%Z) /\
+  (current (run ex_peel empty_state ex_new) 0%nat = Some 11%Z /\ get_peeled (run ex_peel empty_state ex_new) 0%nat = Some 11%Z /\ ex_peel 11 = 1%Z).
+Proof. exact packing_a_tag_value_breaks_the_cache. Qed.
+Print Assumptions peeled_cache_never_lies_refuted.
